@@ -174,7 +174,7 @@ theorem C12_combine_same_site (s : Nat → A) (hs : JWSigns s) (i : Nat) (p q : 
     have cy := hy.comm_string i (Nat.le_refl i)
     have sq := jwString_sq hs i
     cases p <;> cases q <;> simp only [jwImage, Bool.false_eq_true, if_false, if_true, bne_self_eq_false,
-      Bool.bne_true, Bool.not_false, Bool.not_true, Bool.bne_false]
+      Bool.bne_true, Bool.not_false, Bool.bne_false]
     · rw [← mul_assoc, cx, mul_assoc]
     · rw [mul_assoc]
     · calc jwString s i * x * (jwString s i * y)
@@ -224,6 +224,24 @@ theorem C12_CAR (s c cd : Nat → A) (hs : JWSigns s)
       jwImage s i true (c i) * jwImage s i true (c i) = 0 ∧ jwImage s i true (cd i) * jwImage s i true (cd i) = 0
     rw [same c cd hc hcd i, same cd c hcd hc i, same c c hc hc i, same cd cd hcd hcd i]
     exact hloc i
+
+/-- **Operator strings multiply site by site.**  If `x k`, `y k` are operators on site `k` (operators
+of different sites commute), the product of the strings `x 0 ⋯ x (n-1)` and `y 0 ⋯ y (n-1)` is the
+string of the site-wise products — the justification for reading the product of Jordan–Wigner images
+one site at a time (`prodAt` in `PropsJW.lean`: concatenation of the names on each site). -/
+theorem C12_string_product (x y : Nat → A) (n : Nat) (h : ∀ i j, i ≠ j → x i * y j = y j * x i) :
+    jwString (fun k => x k * y k) n = jwString x n * jwString y n := by
+  induction n with
+  | zero => simp [jwString]
+  | succ n ih =>
+    have hc : x n * jwString y n = jwString y n * x n :=
+      jwString_comm y (x n) n (fun k hk => h n k (by omega))
+    show jwString (fun k => x k * y k) n * (x n * y n) = jwString x n * x n * (jwString y n * y n)
+    rw [ih]
+    calc jwString x n * jwString y n * (x n * y n)
+        = jwString x n * (jwString y n * x n) * y n := by noncomm_ring
+      _ = jwString x n * (x n * jwString y n) * y n := by rw [hc]
+      _ = jwString x n * x n * (jwString y n * y n) := by noncomm_ring
 
 /-! ## grouped sites -/
 
